@@ -1,4 +1,4 @@
-"""Enums used as task parameter atoms (spec names me.E1 ... me.E4).  E3 and E4 mix in a scalar type: their members
+"""Enums used as task parameter atoms (spec names me.E1 ... me.E4, me.Holder.E5).  E3 and E4 mix in a scalar type: their members
 are ints / strs as well (E3.ONE == 1, E4.A == 'a'), but as parameter values they are enum members."""
 import enum
 
@@ -18,3 +18,10 @@ class E3(enum.IntEnum):
 
 class E4(str, enum.Enum):
     A = 'a'
+
+
+class Holder:
+    """An enum defined inside another class (spec name me.Holder.E5): its qualified name has a dot."""
+
+    class E5(enum.Enum):
+        A = 1
